@@ -930,6 +930,16 @@ class Model:
                                     cg[fn.qn].add(t2.lookup('__init__').qn)
                 if isinstance(n, ast.Call) and n.args:
                     nm = self.ext_name(fn.mod, n.func)
+                    if nm == 'functools.partial' and isinstance(n.args[0], (ast.Attribute, ast.Name)):
+                        # partial(obj.method, a, ...) / partial(callable_object, a, ...): whoever applies it calls what a direct call would
+                        fake = ast.copy_location(ast.Call(func=n.args[0], args=list(n.args[1:]), keywords=list(n.keywords)), n)
+                        try:
+                            tg_, _, _ = self.resolve_any(fn, fake, self.local_env(fn))
+                        except Exception:
+                            tg_ = []
+                        for t_ in tg_:
+                            cg[fn.qn].add(t_.qn)
+                            sites[t_.qn].append((fn, n))
                     a0 = None
                     if nm in ('operator.methodcaller', 'operator.attrgetter'):
                         a0 = n.args[0]
